@@ -819,7 +819,7 @@ pub fn exc_menu(os: OsK) -> Vec<Rec> {
             let facility = t.entries("WinErrorFacilityWindows").first().expect("procgen: a facility").1 as u32;
             let fac = t.entries("WinErrorWindows").iter().filter(|e| e.1 > 0x70 && e.1 < 0x10000).map(|e| 0xC000_0000u32 | (facility << 16) | (e.1 as u32)).find(|c| e_unlisted(t, *c)).expect("procgen: a facility-coded value");
             let codes: [u32; 15] = [fac, 0xC000_0005, 0xC000_0006, 0xC000_0409, 5, 0xC000_0017, 0x8007_0005, 0xE000_0008, 0xE06D_7363, 0x0517_A7ED, 0xC000_0094, 0x1234_5678, 0xC000_0004, 0xC000_0007, 0xFFFF_FFFF];
-            let infos: [[u64; 3]; 5] = [[0, 0x20800, 0xC000_009A], [1, 0x20800, 0xFFFF_FFFF_C000_009A], [8, 0x20800, 0x7], [2, 0x20800, 0x5], [0xFFFF_FFFF, 0xFFFF_FFFF_0002_0800, 0xC000_0005]];
+            let infos: [[u64; 3]; 6] = [[0, 0x20800, 0xC000_009A], [1, 0x20800, 0xFFFF_FFFF_C000_009A], [8, 0x20800, 0x7], [2, 0x20800, 0x5], [0xFFFF_FFFF, 0xFFFF_FFFF_0002_0800, 0xC000_0005], [0xFFFF_FFFF_0000_0007, 0x20800, 0xFFFF_FFFF_0000_0005]];
             for c in codes {
                 for np in [0u32, 1, 2, 3, 15, 16] {
                     for i in infos {
